@@ -19,20 +19,24 @@ Definition pair_eqb {A B} (fa : A -> A -> bool) (fb : B -> B -> bool) (x y : A *
   fa (fst x) (fst y) && fb (snd x) (snd y).
 
 (* ------------------------------------------------------------------ JWT oracle table *)
-(* ((secret id, header id), library verdict) *)
-Definition jtable := list ((N * N) * jverdict).
+(* ((time index, secret id, header id), library verdict): the verdict of the jwt library at the clock
+   reading with that index (readings are numbered in increasing order within a case) *)
+Definition jtable := list ((N * N * N) * jverdict).
 
-Definition jwt_of (t : jtable) (s tok : N) : jverdict :=
-  match alookup (pair_eqb N.eqb N.eqb) (s, tok) t with Some v => v | None => JErr end.
+Definition triple_eqb (x y : N * N * N) : bool :=
+  (fst (fst x) =? fst (fst y))%N && (snd (fst x) =? snd (fst y))%N && (snd x =? snd y)%N.
 
-(* Spec-level reading of the table: signature verifies and time claims valid = the library accepted *)
-Definition jwt_ok_of (t : jtable) (s tok : N) : bool :=
-  match jwt_of t s tok with JTok true true _ => true | _ => false end.
+Definition jwt_of (t : jtable) (jt : Z) (s tok : N) : jverdict :=
+  match alookup triple_eqb (Z.to_N jt, s, tok) t with Some v => v | None => JErr end.
 
-Definition claims_of (t : jtable) (secret prev tok : N) : list (string * N) :=
-  match jwt_of t secret tok with
+(* Spec-level reading of the table: signature verifies and time claims valid at jt = the library accepted *)
+Definition jwt_ok_of (t : jtable) (jt : Z) (s tok : N) : bool :=
+  match jwt_of t jt s tok with JTok true true _ => true | _ => false end.
+
+Definition claims_of (t : jtable) (jt : Z) (secret prev tok : N) : list (string * N) :=
+  match jwt_of t jt secret tok with
   | JTok true true c => c
-  | _ => match jwt_of t prev tok with JTok _ _ c => c | JErr => [] end
+  | _ => match jwt_of t jt prev tok with JTok _ _ c => c | JErr => [] end
   end.
 
 Definition claims_eqb : list (string * N) -> list (string * N) -> bool :=
@@ -40,7 +44,7 @@ Definition claims_eqb : list (string * N) -> list (string * N) -> bool :=
 
 (* ------------------------------------------------------------------ parser histories *)
 Record prow := mkprow {
-  pr_now : Z; pr_tok : N;
+  pr_now : Z; pr_jt : Z; pr_tok : N;
   pr_ok : bool;                 (* observed: err == nil *)
   pr_valid : bool;              (* observed: token.Valid *)
   pr_counts : list (N * N)      (* observed: Parser.history after the request *)
@@ -62,7 +66,7 @@ Fixpoint parser_rows (t : jtable) (secret prev : N) (p : pstate) (rows : list pr
   match rows with
   | [] => true
   | r :: rest =>
-      let '(p', v) := parse_token (jwt_of t) (pr_now r) p secret prev (pr_tok r) in
+      let '(p', v) := parse_token (jwt_of t (pr_jt r)) (pr_now r) p secret prev (pr_tok r) in
       Bool.eqb (pr_ok r) (match v with Some _ => true | None => false end) &&
       Bool.eqb (pr_valid r) (match v with Some (JTok valid _ _) => valid | _ => false end) &&
       hist_eqb (pr_counts r) (hist p') &&
@@ -77,13 +81,13 @@ Definition parser_model_ok (c : parser_case) : bool :=
    previous secret; only the two configured secrets are ever counted *)
 Definition parser_spec_ok (c : parser_case) : bool :=
   forallb (fun r =>
-    Bool.eqb (pr_ok r) (jwt_accept (jwt_ok_of (pc_table c)) (pc_secret c) (pc_prev c) (pr_tok r)) &&
+    Bool.eqb (pr_ok r) (jwt_accept (jwt_ok_of (pc_table c) (pr_jt r)) (pc_secret c) (pc_prev c) (pr_tok r)) &&
     Bool.eqb (pr_valid r) (pr_ok r) &&
     forallb (fun kv => (fst kv =? pc_secret c)%N || (fst kv =? pc_prev c)%N) (pr_counts r)) (pc_rows c).
 
 (* ------------------------------------------------------------------ JWT gate histories *)
 Record jrow := mkjrow {
-  jr_now : Z; jr_tok : N;
+  jr_now : Z; jr_jt : Z; jr_tok : N;
   jr_status : Z; jr_ran : bool; jr_ctx : list (string * N); jr_cb : bool
 }.
 
@@ -99,17 +103,17 @@ Definition jout_eqb (o : jout) (r : jrow) : bool :=
   claims_eqb (j_ctx o) (jr_ctx r) && Bool.eqb (j_cb o) (jr_cb r).
 
 Definition jwt_model_ok (c : jwt_case) : bool :=
-  let reqs := map (fun r => (jr_now r, jr_tok r)) (jc_rows c) in
+  let reqs := map (fun r => (jr_now r, jr_jt r, jr_tok r)) (jc_rows c) in
   let p0 := new_parser (jc_start c) C04_Gen.claimHistoryResetDuration in
   all2 jout_eqb (snd (run_jwt (jwt_of (jc_table c)) (jc_cb c) p0 (jc_secret c) (jc_prev c) reqs)) (jc_rows c).
 
 Definition jwt_spec_ok (c : jwt_case) : bool :=
   forallb (fun r =>
-    let adm := jwt_accept (jwt_ok_of (jc_table c)) (jc_secret c) (jc_prev c) (jr_tok r) in
+    let adm := jwt_accept (jwt_ok_of (jc_table c) (jr_jt r)) (jc_secret c) (jc_prev c) (jr_tok r) in
     Bool.eqb (jr_ran r) adm &&
     if adm then
       (jr_status r =? 200) &&
-      claims_eqb (jr_ctx r) (visible_claims (claims_of (jc_table c) (jc_secret c) (jc_prev c) (jr_tok r)))
+      claims_eqb (jr_ctx r) (visible_claims (claims_of (jc_table c) (jr_jt r) (jc_secret c) (jc_prev c) (jr_tok r)))
     else
       (jr_status r =? match jc_cb c with CbStatus s => s | _ => 401 end) &&
       claims_eqb (jr_ctx r) []) (jc_rows c).
@@ -225,12 +229,80 @@ Fixpoint rpc_spec_rows (strict : bool) (memo : list (N * N)) (steps : list rstep
 
 Definition rpc_spec_ok (c : rpc_case) : bool := rpc_spec_rows (rc_strict c) [] (rc_steps c).
 
+(* ------------------------------------------------------------------ route groups on one engine *)
+Record grp_case := mkgc {
+  gc_groups : list group;                          (* in registration order *)
+  gc_target : nat;                                 (* the group whose route the request is sent to *)
+  gc_rsa : list ((N * bytes) * option bytes);      (* (private key id, secret text) |-> DecryptBase64 *)
+  gc_fp : bytes; gc_enckey : N;                    (* what the client did: announced fingerprint, public key used *)
+  gc_sig : sig_case                                (* request, remaining tables, description, observation *)
+}.
+
+Definition grp_rsa (c : grp_case) (k : N) (s : bytes) : option bytes :=
+  match alookup (pair_eqb N.eqb bytes_eqb) (k, s) (gc_rsa c) with Some v => v | None => None end.
+
+Definition grp_gate (c : grp_case) (now : Z) : option sout :=
+  let s := gc_sig c in
+  engine_gate (grp_rsa c) (opt_bytes_tab (sc_b64 s)) (mac_of s) (sha_of s) (fun _ => sc_url s) (fun _ _ => sc_decbody s)
+    (gc_groups c) (gc_target c) now (sc_req s).
+
+Definition grp_model_ok (c : grp_case) : bool :=
+  let s := gc_sig c in
+  match grp_gate c (sc_now0 s), grp_gate c (sc_now1 s) with
+  | Some o0, Some o1 => sout_eqb s o0 || sout_eqb s o1
+  | _, _ => false
+  end.
+
+(* Spec: the (fingerprint, key) pair the client used is configured FOR THE TARGET GROUP; everything else
+   (tolerance, strictness) is the target group's own setting *)
+Definition configured_for (g : group) (fp : bytes) (k : N) : bool :=
+  existsb (fun kv => bytes_eqb (fst kv) fp && (snd kv =? k)%N) (g_keys g).
+
+Definition grp_spec_ok (c : grp_case) : bool :=
+  let s := gc_sig c in
+  match nth_error (gc_groups c) (gc_target c) with
+  | None => false
+  | Some g =>
+      let q := sc_q s in
+      let q' := mkq (q_decrypts q && configured_for g (gc_fp c) (gc_enckey c)) (q_key q) (q_ts_text q) (q_ts q)
+                    (q_sig q) (q_method q) (q_path q) (q_query q) (q_body q) in
+      sig_spec_ok (mksc (g_strict g) (g_tol g) (sc_now0 s) (sc_now1 s) (sc_decryptors s) (sc_req s) (sc_rsa s)
+                        (sc_b64 s) (sc_mac s) (sc_sha s) (sc_url s) (sc_decbody s) q' (sc_enc s) (sc_skip_spec s)
+                        (sc_status s) (sc_ran s) (sc_hdr s) (sc_panic s))
+  end.
+
+(* ------------------------------------------------------------------ RPC through the interceptors *)
+Record istep := mkis {
+  is_step : rstep;                 (* store state, metadata, observed code *)
+  is_mode : rpc_mode; is_method : N;
+  is_ran : bool                    (* observed: the handler was called *)
+}.
+
+Record rpci_case := mkri { ri_strict : bool; ri_steps : list istep }.
+
+Fixpoint rpci_rows (strict : bool) (cache : list (N * N)) (steps : list istep) : bool :=
+  match steps with
+  | [] => true
+  | s :: r =>
+      let '(cache', code, ran) := intercept (is_mode s) (is_method s) strict cache (store_of (is_step s)) (rs_md (is_step s)) in
+      (code =? rs_code (is_step s)) && Bool.eqb ran (is_ran s) && rpci_rows strict cache' r
+  end.
+
+Definition rpci_model_ok (c : rpci_case) : bool := rpci_rows (ri_strict c) [] (ri_steps c).
+
+(* Spec: the decision is rpc_accept (which has no method-name input) and the handler runs iff accepted *)
+Definition rpci_spec_ok (c : rpci_case) : bool :=
+  rpc_spec_rows (ri_strict c) [] (map is_step (ri_steps c)) &&
+  forallb (fun s => Bool.eqb (is_ran s) (rs_code (is_step s) =? 0)) (ri_steps c).
+
 (* ------------------------------------------------------------------ dispatch *)
 Inductive case :=
 | CParser (c : parser_case)
 | CJwt (c : jwt_case)
 | CSig (c : sig_case)
-| CRpc (c : rpc_case).
+| CRpc (c : rpc_case)
+| CGrp (c : grp_case)
+| CRpcI (c : rpci_case).
 
 Definition model_ok (c : case) : bool :=
   match c with
@@ -238,6 +310,8 @@ Definition model_ok (c : case) : bool :=
   | CJwt c => jwt_model_ok c
   | CSig c => sig_model_ok c
   | CRpc c => rpc_model_ok c
+  | CGrp c => grp_model_ok c
+  | CRpcI c => rpci_model_ok c
   end.
 
 Definition spec_ok (c : case) : bool :=
@@ -246,4 +320,6 @@ Definition spec_ok (c : case) : bool :=
   | CJwt c => jwt_spec_ok c
   | CSig c => sig_spec_ok c
   | CRpc c => rpc_spec_ok c
+  | CGrp c => grp_spec_ok c
+  | CRpcI c => rpci_spec_ok c
   end.
